@@ -81,7 +81,7 @@ def bounded_cases(ctx: Ctx):
     # (b) integer sums/products beyond the input width but within the result dtype
     for dt, vals in (("int8", [100, 100, 127, -128, -100, 27]), ("uint8", [200, 200, 255, 100, 1, 3]), ("int16", [30000, 30000, -32768, 1, 2, 32767]),
                      ("int32", [2**31 - 1, 2**31 - 1, -(2**31), 5, 7, 2**30]), ("uint16", [65535, 65535, 1, 2, 3, 4]), ("uint32", [2**32 - 1, 2**32 - 1, 1, 2, 3, 4])):
-        for func in ("sum", "nansum", "prod", "nanprod", "mean", "count", "var"):
+        for func in ("sum", "nansum", "prod", "nanprod", "mean", "count", "var", "nanvar", "nanstd"):
             for pat in gen.sample([p for p in pats if all(x >= 0 for x in p)], 5 if ctx.quick else 20, rng):
                 i += 1
                 v = np.array([vals[rng.integers(len(vals))] for _ in range(n)], dtype=dt)
@@ -89,7 +89,7 @@ def bounded_cases(ctx: Ctx):
                     v = np.array([[7, 11, 13, 2, 3, 5][rng.integers(6)] for _ in range(n)], dtype=dt)  # product exceeds 8 bits, fits 64
                 lab = gen.labels_to_array(pat)
                 for eng in gen.ENGINES:
-                    c = dict(array=enc(v), by=[enc(lab)], func=func, engine=eng, check_dtype=func != "var")
+                    c = dict(array=enc(v), by=[enc(lab)], func=func, engine=eng, check_dtype=func not in ("var", "nanvar", "nanstd"))
                     if i % 2:
                         c["chunks"] = [list(chunkings[i % len(chunkings)])]
                         c["method"] = [None, "map-reduce", "cohorts"][i % 3]
@@ -127,7 +127,7 @@ def run(ctx: Ctx):
     if getattr(ctx, "only", None) != "proof":
         run_bounded(
             ctx, "C20.rtc.inf_and_width", FUNCTION, bounded_cases(ctx), "vlib.props.C20:check",
-            bound="(a) arrays over {+Inf,-Inf,NaN,1,-2} for min/max/nanmin/nanmax (and sum/prod/mean with their nan- variants: an infinity is a value, never replaced by a finite stand-in) on all 5 engines, eager and chunked; (b) int8/uint8/int16/uint16/int32/uint32 arrays whose group totals/products exceed the input width but fit the result dtype, sum/nansum/prod/nanprod/mean/count/var on all engines and strategies",
+            bound="(a) arrays over {+Inf,-Inf,NaN,1,-2} for min/max/nanmin/nanmax (and sum/prod/mean with their nan- variants: an infinity is a value, never replaced by a finite stand-in) on all 5 engines, eager and chunked; (b) int8/uint8/int16/uint16/int32/uint32 arrays whose group totals/products exceed the input width but fit the result dtype, sum/nansum/prod/nanprod/mean/count/var/nanvar/nanstd on all engines and strategies",
             rule="postcondition: NumPy on the members (extreme = +-Inf kept; integer totals exact in the advertised dtype); chunked == eager; non-trivial = contains an infinity or a total beyond the input width",
             nontrivial=lambda c: True,
         )
